@@ -37,6 +37,7 @@ class Harness:
         self.runtime = runtime
         self.no_models = no_models
         self.inline_twins = inline_twins
+        self.literal_seed = None   # set by the C19 API sweep: also generate constant-initialised literal objects
         self.work = work
         self.flags = flags
         self.cxx = cxx
@@ -64,7 +65,8 @@ class Harness:
             self.gen = HarnessGen(self.cat, exclude=excl, only=self.only, no_models=self.no_models)
             with open(os.path.join(self.work, "c20_prelude.hpp"), "w") as f:
                 f.write(self.gen.prelude())
-            tus = self.gen.translation_units(self.ntus, self.subset, self.inline_twins, at_exit_object=(self.runtime == "c20_rt.cpp"))
+            tus = self.gen.translation_units(self.ntus, self.subset, self.inline_twins, at_exit_object=(self.runtime == "c20_rt.cpp"),
+                                             const_literals=(Rng(self.literal_seed) if self.literal_seed is not None else None))
             tus = {fn: text for fn, text in tus.items() if "vrt::OpEntry" in text}
             todo = []
             for fn, text in tus.items():
